@@ -13,6 +13,16 @@ def run(chk, st, tier):
     if not runner:
         return
     files = R.make_files(chk, runner, shapes, rng, 140 if tier == "quick" else 1500, maxrecs=10, pages=(1, 2, 3, 7, 1000), name="C16-files")
+    # string values (hence page-header statistics) beyond 1 KiB and 64 KiB
+    lw = Fm.long_string_workloads(rng, shapes, sizes=(1100, 3000) if tier == "quick" else (1100, 3000, 70000))
+    if lw:
+        li, lm, _, _ = C.run_cases(Fm.shape_lines(shapes) + [w.line("w%d" % i) for i, w in enumerate(lw)], "C16-long", impl_cmd=[runner])
+        for i, w in enumerate(lw):
+            pw = Fm.parse_write(li.get("w%d" % i))
+            if li.get("w%d" % i) != lm.get("w%d" % i):
+                chk.broke("correspondence:C16", "writing %s differs between implementation and model" % (w.describe(),))
+            if pw and "1" not in pw[0]:
+                files.append((w, b"".join(pw[1])))
     lines = []
     for i, (w, f) in enumerate(files):
         lines.append("i%d introspect %s" % (i, C.hexs(f)))
@@ -50,7 +60,7 @@ def run(chk, st, tier):
     chk.coverage["model_vs_impl_mismatches"] = mism
     if files:
         chk.sample({"file": files[0][0].describe(), "library": (impl.get("i0") or "")[:200]})
-    chk.coverage["rule"] = ("portfolio files (random histories, page sizes {1,2,3,7,1000}, 3 codecs): parquet.ReadMetaData, PageHeaders and PageHeadersAtOffset (per chunk) on the real bytes, compared field by field with "
+    chk.coverage["rule"] = ("portfolio files (random histories, page sizes {1,2,3,7,1000}, 3 codecs; plus files whose string values and statistics exceed 1 KiB / 64 KiB): parquet.ReadMetaData, PageHeaders and PageHeadersAtOffset (per chunk) on the real bytes, compared field by field with "
                             "(a) the footer and the page headers the extracted independent validator finds by walking the file, and (b) the Coq model of the three calls. distinct = distinct files; non-trivial = at least one row group.")
     chk.coverage["explanation"] = "see coq/props/C16.v."
     chk.assumptions += ['validator walk is independent of parquet.PageHeaders; thrift model tested against the library']
